@@ -1,6 +1,6 @@
 from driver import Unit
 LEVEL = "other"
-HARNESS_FILES = ["verif_poly.rs"]
+HARNESS_FILES = ["verif_poly.rs", "verif_bmoc.rs"]
 P = "nested::verif_poly::"
 MANIFEST = dict(
     category="other",
@@ -12,4 +12,6 @@ EXPLANATION = "Single must-panic obligation over all doubles >= pi/2 and all dep
 ASSUMPTIONS = ["all geometric claims of C13 NOT decided"]
 TRUSTED_BASE = ["Kani 0.68 / CBMC 6.11"]
 def units():
+    # a structural harness of the small-ellipse branch (geometry predicates as arbitrary answers, builder as contract;
+    # harness/verif_poly.rs ellipse_small_*) did not finish in CBMC in 15 min (Vec collect/sort/dedup): not registered
     return [Unit("ellipse_guard_must_panic", P + "ellipse_guard_must_panic", ["Layer::elliptical_cone_coverage_internal"], "a >= pi/2 rejected by a panic on every path, every depth", kind="must_panic", allowed_fail=[r"Unable to handle ellipses"], timeout=600)]
